@@ -309,6 +309,10 @@ class BackendVSA(Backend):
             # TODO: Do we want to do anything here?
             return o
 
+        if not isinstance(a, StridedIntervalAnnotation | RegionAnnotation | UninitializedAnnotation):
+            # an annotation that says nothing about abstract values (a user's own, or simplification avoidance)
+            return o
+
         raise ValueError(f"Unsupported annotation type {type(a)} for object {type(o)}")
 
     @staticmethod
